@@ -194,11 +194,80 @@ def main():
                 out.append('?')
         return out
 
-    def owner(a):
+    def root_of(a):
         # the array that owns the memory (seq[idx, cols] holds a column view of its parent's buffer)
         while isinstance(a.base, np.ndarray):
             a = a.base
-        return id(a)
+        return a
+
+    # ---- the ONE place where the sequence's storage is read ------------------------------------------------
+    # The subject of C15 is who shares a buffer with whom.  What the check needs per object is (buffer identity,
+    # (offset, length) of every element).  Both are read from BEHAVIOUR first: the arrays handed out by iterating the
+    # object are views into the buffer, so the memory-owning array at the end of their .base chain is the buffer and
+    # (address of the element - address of the buffer) / row stride is the offset.  Private attributes are only
+    # consulted for what behaviour cannot show (the buffer of an object without elements, the is_view flag), through
+    # a list of plausible names; if none answers, the object gets a buffer of its own, '#DEGRADED' is printed and the
+    # parent compares sharing among objects with elements only.  A private rename therefore degrades, never crashes.
+    DATA_NAMES = ('_data', '_buffer', '_buf', '_rows', '_values', '_array', '_arr')
+    OFFS_NAMES = ('_offsets', 'offsets', '_starts', '_offs')
+    LENS_NAMES = ('_lengths', 'lengths', '_lens', '_counts', '_sizes')
+    VIEW_NAMES = ('_is_view', 'is_view', '_view', '_isview', '_is_a_view')
+    degraded = set()
+    told = []
+
+    def _attr(s, names, ok):
+        for n in names:
+            try:
+                v = getattr(s, n)
+            except Exception:
+                continue
+            try:
+                if ok(v):
+                    return v
+            except Exception:
+                continue
+        return None
+
+    def _behaviour(elems):
+        if not elems:
+            return None
+        root = root_of(elems[0])
+        if any(root_of(x) is not root for x in elems[1:]):
+            return None
+        if root.ndim < 1 or root.shape[0] == 0 or root.strides[0] <= 0:
+            return None
+        rp, st = root.__array_interface__['data'][0], root.strides[0]
+        ol = []
+        for x in elems:
+            d = x.__array_interface__['data'][0] - rp
+            if d < 0 or d // st + len(x) > root.shape[0]:
+                return None
+            ol.append((d // st, len(x)))
+        return id(root), ol
+
+    def _private(s, n):
+        is1d = lambda v: isinstance(v, np.ndarray) and v.ndim == 1 and len(v) == n and v.dtype.kind in 'iu'
+        data = _attr(s, DATA_NAMES, lambda v: isinstance(v, np.ndarray) and v.ndim >= 1)
+        offs = _attr(s, OFFS_NAMES, is1d)
+        lens = _attr(s, LENS_NAMES, is1d)
+        if data is None or offs is None or lens is None:
+            return None
+        return id(root_of(data)), [(int(o), int(l)) for o, l in zip(offs, lens)]
+
+    def seq_state(s, elems):
+        """(buffer identity, is_view flag or 0, [(offset, length)]) of one object; elems = list(iter(s))"""
+        got = _behaviour(elems)
+        if got is None:
+            got = _private(s, len(elems))
+            if got is None:
+                data = _attr(s, DATA_NAMES, lambda v: isinstance(v, np.ndarray))
+                if data is not None and not elems:
+                    got = (id(root_of(data)), [])
+                else:
+                    degraded.add('buffer of an object without elements' if not elems else 'layout')
+                    got = (('own', id(s)), [(0, len(x)) for x in elems] if elems else [])
+        v = _attr(s, VIEW_NAMES, lambda v: isinstance(v, (bool, np.bool_, int)))
+        return got[0], int(bool(v)) if v is not None else 0, got[1]
 
     def observe(seqs):
         canon = {}
@@ -207,11 +276,13 @@ def main():
         for i, s in enumerate(seqs):
             if s is None:
                 continue
-            k = canon.setdefault(owner(s._data), len(canon))
-            els = [rows_of(x) for x in s]          # copied out immediately
+            elems = list(s)
+            own, isv, ol = seq_state(s, elems)
+            k = canon.setdefault(own, len(canon))
+            els = [rows_of(x) for x in elems]          # copied out immediately
+            del elems
             parts.append(f'{i}@{k}=' + ('-' if not els else '/'.join(enc_elem(e) for e in els)))
-            lay.append(f'{i}={k},{int(bool(s._is_view))}:' +
-                       ','.join(f'{int(o)}.{int(l)}' for o, l in zip(s._offsets, s._lengths)))
+            lay.append(f'{i}={k},{isv}:' + ','.join(f'{o}.{l}' for o, l in ol))
         return '&'.join(parts), '&'.join(lay)
 
     for line in sys.stdin:
@@ -386,6 +457,9 @@ def main():
             lays.append(lay)
             echo.append(tok)
         sys.stdout.write(hid + '\t' + ' '.join(echo) + '\t' + ';'.join(steps) + '\t' + ';'.join(lays) + '\n')
+        if degraded and not told:
+            told.append(1)
+            sys.stdout.write('#DEGRADED ' + '; '.join(sorted(degraded)) + '\n')
         sys.stdout.flush()
         del seqs
     return 0
